@@ -278,7 +278,10 @@ pub fn nsec3_chain(zone: &Zone, salt: &[u8], iterations: u16, opt_out: bool) -> 
     let mut hashed: Vec<(Vec<u8>, BTreeSet<u16>)> = names
         .into_iter()
         .map(|(o, mut t)| {
-            if !t.is_empty() {
+            // RFC 5155 7.1 / RFC 4035 2.2: the RRSIG bit is set iff the name owns a SIGNED RRset; the NS
+            // RRset of a delegation is not signed, so an insecure delegation (NS only) has no RRSIG bit
+            let insecure_delegation = zone.is_cut(&o) && !t.contains(&z::T_DS);
+            if !t.is_empty() && !insecure_delegation {
                 t.insert(z::T_RRSIG);
             }
             if o == zone.origin {
@@ -300,6 +303,78 @@ pub fn nsec3_chain(zone: &Zone, salt: &[u8], iterations: u16, opt_out: bool) -> 
             salt: salt.to_vec(),
         })
         .collect()
+}
+
+// ------------------------------------------------------------------------------------------
+// reference wire encoders (RFC 4034 4.1, RFC 5155 3.2): an independent producer of the octets
+
+/// RFC 4034 4.1.2 Type Bit Maps: one block (window number, bitmap length 1..32, bitmap) per
+/// 256-type window that has a member, windows ascending, no trailing zero octets.
+pub fn type_bitmap_wire(types: &BTreeSet<u16>) -> Vec<u8> {
+    let mut out = vec![];
+    let mut windows: std::collections::BTreeMap<u8, [u8; 32]> = Default::default();
+    for t in types {
+        let w = windows.entry((t >> 8) as u8).or_insert([0u8; 32]);
+        let low = (t & 0xff) as usize;
+        w[low / 8] |= 0x80 >> (low % 8);
+    }
+    for (w, bits) in windows {
+        let len = bits.iter().rposition(|b| *b != 0).map(|p| p + 1).unwrap_or(0);
+        if len == 0 {
+            continue;
+        }
+        out.push(w);
+        out.push(len as u8);
+        out.extend_from_slice(&bits[..len]);
+    }
+    out
+}
+
+/// A name in wire form WITHOUT case folding and without compression (labels as given).
+pub fn wire_name_raw(labels: &[Vec<u8>]) -> Vec<u8> {
+    let mut v = vec![];
+    for l in labels {
+        v.push(l.len() as u8);
+        v.extend_from_slice(l);
+    }
+    v.push(0);
+    v
+}
+
+/// NSEC RDATA (RFC 4034 4.1): next domain name (uncompressed, case preserved) + type bit maps.
+pub fn nsec_rdata_wire(next_labels: &[Vec<u8>], types: &BTreeSet<u16>) -> Vec<u8> {
+    let mut v = wire_name_raw(next_labels);
+    v.extend(type_bitmap_wire(types));
+    v
+}
+
+/// NSEC3 RDATA (RFC 5155 3.2): hash alg, flags, iterations, salt length + salt, hash length +
+/// next hashed owner, type bit maps.
+pub fn nsec3_rdata_wire(alg: u8, flags: u8, iterations: u16, salt: &[u8], next_hash: &[u8], types: &BTreeSet<u16>) -> Vec<u8> {
+    let mut v = vec![alg, flags];
+    v.extend_from_slice(&iterations.to_be_bytes());
+    v.push(salt.len() as u8);
+    v.extend_from_slice(salt);
+    v.push(next_hash.len() as u8);
+    v.extend_from_slice(next_hash);
+    v.extend(type_bitmap_wire(types));
+    v
+}
+
+/// A complete response message in wire form carrying ONE record in the authority section
+/// (no compression): header (QR=1, counts 1/0/1/0), question (qname, qtype, IN), the record.
+pub fn message_with_authority_record(qname_labels: &[Vec<u8>], qtype: u16, owner_labels: &[Vec<u8>], rtype: u16, ttl: u32, rdata: &[u8]) -> Vec<u8> {
+    let mut v = vec![0x12, 0x34, 0x84, 0x00, 0, 1, 0, 0, 0, 1, 0, 0];
+    v.extend(wire_name_raw(qname_labels));
+    v.extend_from_slice(&qtype.to_be_bytes());
+    v.extend_from_slice(&1u16.to_be_bytes());
+    v.extend(wire_name_raw(owner_labels));
+    v.extend_from_slice(&rtype.to_be_bytes());
+    v.extend_from_slice(&1u16.to_be_bytes());
+    v.extend_from_slice(&ttl.to_be_bytes());
+    v.extend_from_slice(&(rdata.len() as u16).to_be_bytes());
+    v.extend_from_slice(rdata);
+    v
 }
 
 // ------------------------------------------------------------------------------------------
@@ -658,6 +733,19 @@ pub fn self_test() -> Vec<String> {
         }
         if tr != want_truth {
             bad.push(format!("RFC 4035 {what}: truth = {tr}, expected {want_truth}"));
+        }
+    }
+
+    // RFC 4034 4.3: "alfa.example.com. 86400 IN NSEC host.example.com. ( A MX RRSIG NSEC TYPE1234 )"
+    // -> 0x04 'h' 'o' 's' 't' 0x07 'e' .. 0x03 'c' 'o' 'm' 0x00 | 0x00 0x06 0x40 0x01 0x00 0x00 0x00 0x03 | 0x04 0x1b 0x00 .. 0x20
+    {
+        let types: BTreeSet<u16> = [1u16, 15, 46, 47, 1234].into_iter().collect();
+        let got = nsec_rdata_wire(&[b"host".to_vec(), b"example".to_vec(), b"com".to_vec()], &types);
+        let mut want = vec![0x04, b'h', b'o', b's', b't', 0x07, b'e', b'x', b'a', b'm', b'p', b'l', b'e', 0x03, b'c', b'o', b'm', 0x00, 0x00, 0x06, 0x40, 0x01, 0x00, 0x00, 0x00, 0x03, 0x04, 0x1b];
+        want.extend(std::iter::repeat(0u8).take(26));
+        want.push(0x20);
+        if got != want {
+            bad.push(format!("RFC 4034 4.3: NSEC RDATA octets differ: {got:02x?}"));
         }
     }
 
